@@ -57,7 +57,7 @@ def _flow_control_site():
 def delay_plans(case, dry, mod, tier, rng):
     prefixes = getattr(mod, "SWEEP_PREFIXES", DEFAULT_PREFIXES)
     plans = []
-    sites = pe.sweep_sites(dry, prefixes)
+    sites = [x for x in pe.sweep_sites(dry, prefixes) if not isinstance(x[2], str)]
     t = pe.MAX_DELAY
     hot = ("FunctorPool.SendWorkThread.run", "FunctorPool.imap", "FunctorPool.imap_unordered", "FunctorPool._get_results",
            "FactoryFunctorPool.ReplaceWorkerThread.run", "FactoryFunctorPool.ReplaceWorkerThread.stop", "CMThread.stop",
@@ -79,6 +79,19 @@ def delay_plans(case, dry, mod, tier, rng):
             for wr in getattr(mod, "WORKER_ROLES", ["worker0"] if case.get("workers", 2) > 1 else []):
                 if tier == "thorough" or rng.random() < 0.25:
                     plans.append([[wr, qn, rel, o, "sleep", t]])
+    # instruction-granular sweep: a delay before attribute reads/writes INSIDE a statement of the hot functions (a
+    # preemption between the two reads of one loop condition is invisible at statement granularity)
+    ihot = getattr(mod, "INSTR_HOT", None)
+    if ihot:
+        isites = [(role, qn, rel, n) for role, qn, rel, n in (dry.get("occ") or [])
+                  if isinstance(rel, str) and rel.startswith("i") and qn in ihot]
+        iplans = []
+        for role, qn, rel, n in sorted(isites):
+            for o in sorted({1, n}):
+                iplans.append([[role, qn, rel, o, "sleep", t]])
+        if tier == "quick" and len(iplans) > getattr(mod, "INSTR_SAMPLE", 60):
+            iplans = rng.sample(iplans, getattr(mod, "INSTR_SAMPLE", 60))
+        plans.extend(iplans)
     single = list(plans)
     # random-k: pairs / triples of delay points from different roles, 20-150 ms
     nk = getattr(mod, "RANDOM_K", {"quick": 8, "thorough": 150})[tier]
@@ -99,6 +112,8 @@ def run_shard(mod, spec):
     rng = common.rng_for(mod.PROP, seed, "base", bi)
     case = mod.gen_base(rng, tier, bi)
     case["tier"] = tier
+    if getattr(mod, "INSTR_HOT", None):
+        case["instr_hooks"] = list(mod.INSTR_HOT)
     scratch = common.scratch_dir("vf-pool-")
     fc_site = _flow_control_site()
     t_end = time.time() + getattr(mod, "SHARD_BUDGET_S", {"quick": 100, "thorough": 1500})[tier]
